@@ -101,14 +101,60 @@ func IsTOASTPointer(data []byte) bool {
 	return first == 0x01 || first == 0x02 || first == 0x12
 }
 
+// toastVisible is PostgreSQL's visibility rule for TOAST chunks (HeapTupleSatisfiesToast, the
+// snapshot every detoasting read uses): a chunk is valid unless its insertion is known to have
+// aborted (HEAP_XMIN_INVALID set without HEAP_XMIN_COMMITTED; both set = frozen) or it has no
+// inserter at all (t_xmin 0, a cancelled speculative insertion).  t_xmax and the XMAX hint bits
+// are not looked at and no commit log is needed: whether the VALUE is live is decided by the
+// visibility of the main tuple holding the pointer.  raw is a whole tuple (>= 23 bytes).
+func toastVisible(raw []byte) bool {
+	infomask := u16(raw, 20)
+	if infomask&0x0100 != 0 { // HEAP_XMIN_COMMITTED
+		return true
+	}
+	if infomask&0x0200 != 0 { // HEAP_XMIN_INVALID
+		return false
+	}
+	xmin := u32(raw, 0)
+	return xmin != 0
+}
+
+// readTOASTTuples walks the pages of a TOAST table file like ReadTuples does (same page and line
+// pointer checks as ParsePage) and returns the tuples PostgreSQL's TOAST snapshot sees.  The heap
+// rule of IsVisible (XMIN_COMMITTED hinted, deleter not committed) is the wrong one here: nothing
+// sets hint bits on TOAST chunks before the first VACUUM, so the chunks of every recently stored
+// value are unhinted (infomask 0x0802) and were skipped.
+func readTOASTTuples(data []byte) []*HeapTupleData {
+	var tuples []*HeapTupleData
+	for off := 0; off+PageSize <= len(data); off += PageSize {
+		page := data[off : off+PageSize]
+		h := parseHeader(page)
+		if !validHeader(h) {
+			continue
+		}
+		for _, item := range parseItems(page, h) {
+			if item.Flags != 1 || item.Length <= 0 {
+				continue
+			}
+			if item.Offset < int(h.Upper) || item.Offset+item.Length > PageSize {
+				continue
+			}
+			raw := page[item.Offset : item.Offset+item.Length]
+			if tuple := ParseHeapTuple(raw); tuple != nil && toastVisible(raw) {
+				tuples = append(tuples, tuple)
+			}
+		}
+	}
+	return tuples
+}
+
 // ReadTOASTTable reads all chunks from a TOAST table file
 func ReadTOASTTable(data []byte) []TOASTChunk {
 	var chunks []TOASTChunk
 
 	// TOAST table schema:
 	// chunk_id (oid/4), chunk_seq (int4/4), chunk_data (bytea/varlena)
-	for _, entry := range ReadTuples(data, true) {
-		tuple := entry.Tuple
+	for _, tuple := range readTOASTTuples(data) {
 		if tuple == nil || len(tuple.Data) < 8 {
 			continue
 		}
